@@ -141,6 +141,18 @@ static void macro_slha(MSSMNoFV_onshell* h, gm2calc::MSSMNoFV_onshell& M) {
    both(h, M, "set_Au", 0, 2, 2); both(h, M, "set_Ad", 0, 2, 2); both(h, M, "set_Ae", 0, 1, 1); both(h, M, "set_Ae", 0, 2, 2); both(h, M, "set_scale", 1000);
 }
 
+// SLHA-type point whose Mu/M1/M2 iteration converges slowly (near-degenerate higgsino and wino, pole masses 1 % off
+// the tree-level spectrum): needs between 100 and 1000 iterations at precision 1e-8
+static void macro_slha_slow(MSSMNoFV_onshell* h, gm2calc::MSSMNoFV_onshell& M) {
+   macro_sm(h, M);
+   both(h, M, "set_MSvmL_pole", 495.907995); both(h, M, "set_MSm_pole", 452.004415, 0); both(h, M, "set_MSm_pole", 502.262175, 1);
+   both(h, M, "set_MChi_pole", 300.044614, 0); both(h, M, "set_MChi_pole", 555.847586, 1); both(h, M, "set_MChi_pole", 608.98212, 2); both(h, M, "set_MChi_pole", 682.28992, 3);
+   both(h, M, "set_MCha_pole", 554.598133, 0); both(h, M, "set_MCha_pole", 681.884601, 1); both(h, M, "set_MAh_pole", 1.5e+03);
+   both(h, M, "set_TB", 10); both(h, M, "set_Mu", 600); both(h, M, "set_MassB", 300); both(h, M, "set_MassWB", 620); both(h, M, "set_MassG", 2000);
+   for (unsigned g = 0; g < 3; g++) { both(h, M, "set_mq2", 4e6, g, g); both(h, M, "set_md2", 4e6, g, g); both(h, M, "set_mu2", 4e6, g, g); both(h, M, "set_ml2", 250000, g, g); both(h, M, "set_me2", 202500, g, g); }
+   both(h, M, "set_Au", 0, 2, 2); both(h, M, "set_Ad", 0, 2, 2); both(h, M, "set_Ae", 0, 1, 1); both(h, M, "set_Ae", 0, 2, 2); both(h, M, "set_scale", 1000);
+}
+
 // executes one sequence in THIS process; result string "STATUS hash detail"
 static std::string run_sequence(const std::string& seq) {
    MSSMNoFV_onshell* h = gm2calc_mssmnofv_new();
@@ -162,6 +174,7 @@ static std::string run_sequence(const std::string& seq) {
       a.x = std::strtod(xs, nullptr);
       if (f == -1) macro_gm2calc(h, M);
       else if (f == -2) macro_slha(h, M);
+      else if (f == -4) macro_slha_slow(h, M);
       else if (f == -3) { try { gm2calc_mssmnofv_free(nullptr); gm2calc_thdm_free(nullptr); } catch (...) { escaped = "free(NULL)"; } }
       else if (f >= 0 && f < NFNS) {
          Obs oc, ox; guarded_c(f, h, a, oc); call_cxx(f, M, a, ox);
@@ -199,9 +212,21 @@ static std::string in_child(const std::function<std::string()>& fn) {
 }
 
 // ---------------------------------------------------------------- THDM cases
+// valid Yukawa types are passed by their NAMED enumerators on both sides (the C and the C++ names of one
+// type must denote the same model); out-of-range values are raw integers
+static void set_c_type(gm2calc_THDM_yukawa_type* field, int t) {
+   switch (t) { case 1: *field = gm2calc_THDM_type_1; return; case 2: *field = gm2calc_THDM_type_2; return; case 3: *field = gm2calc_THDM_type_X; return;
+                case 4: *field = gm2calc_THDM_type_Y; return; case 5: *field = gm2calc_THDM_aligned; return; case 6: *field = gm2calc_THDM_general; return; }
+   std::memcpy(field, &t, sizeof t);      // what a C caller can do: any int in the member
+}
+static gm2calc::thdm::Yukawa_type x_named(int t) {
+   using gm2calc::thdm::Yukawa_type;
+   switch (t) { case 1: return Yukawa_type::type_1; case 2: return Yukawa_type::type_2; case 3: return Yukawa_type::type_X;
+                case 4: return Yukawa_type::type_Y; case 5: return Yukawa_type::aligned; default: return Yukawa_type::general; }
+}
 static void fill_mass(gm2calc_THDM_mass_basis& b, int p, int ytype) {
    std::memset(&b, 0, sizeof b);
-   b.yukawa_type = (gm2calc_THDM_yukawa_type)ytype;
+   set_c_type(&b.yukawa_type, ytype);
    b.mh = 125; b.mH = p ? 330 : 400; b.mA = p ? 290 : 420; b.mHp = p ? 350 : 440; b.sin_beta_minus_alpha = p ? 0.9 : 0.995;
    b.lambda_6 = p ? -0.1 : 0.2; b.lambda_7 = 0.1; b.tan_beta = p ? 20 : 3; b.m122 = p ? 5000 : 40000;
    b.zeta_u = 0.3; b.zeta_d = -1.5; b.zeta_l = 25; b.Delta_l[0][1] = 0.01; b.Pi_l[1][1] = p ? 0.02 : 0;
@@ -210,7 +235,7 @@ static void fill_mass(gm2calc_THDM_mass_basis& b, int p, int ytype) {
 }
 static void fill_gauge(gm2calc_THDM_gauge_basis& b, int p, int ytype) {
    std::memset(&b, 0, sizeof b);
-   b.yukawa_type = (gm2calc_THDM_yukawa_type)ytype;
+   set_c_type(&b.yukawa_type, ytype);
    const double l[7] = {0.7, 0.6, 0.5, 0.4, 0.3, 0.2, 0.1};
    for (int i = 0; i < 7; i++) b.lambda[i] = (p == 2 ? -3 * l[i] : l[i]);     // p==2: tachyonic
    b.tan_beta = p == 3 ? 0 : 3; b.m122 = p ? 1000 : 40000; b.zeta_u = 0.1; b.zeta_l = -2; b.Pi_u[2][2] = p ? 0.1 : 0;
@@ -241,8 +266,8 @@ static std::string run_thdm(const std::string& line) {
    gm2calc::THDM* X = nullptr; int xcode;
    if (!valid_type && !bnull) xcode = -2;   // an out-of-range enum value has no C++ counterpart: any refusal code is accepted, NoError is not
    else xcode = code_of([&] {
-      if (gauge) { gm2calc::thdm::Gauge_basis b; if (!bnull) { b.yukawa_type = (gm2calc::thdm::Yukawa_type)ytype; for (int i = 0; i < 7; i++) b.lambda(i) = cg.lambda[i]; copy_common(cg, b); } X = new gm2calc::THDM(b, xsm, xcfg); }
-      else { gm2calc::thdm::Mass_basis b; if (!bnull) { b.yukawa_type = (gm2calc::thdm::Yukawa_type)ytype; b.mh = cm.mh; b.mH = cm.mH; b.mA = cm.mA; b.mHp = cm.mHp; b.sin_beta_minus_alpha = cm.sin_beta_minus_alpha; b.lambda_6 = cm.lambda_6; b.lambda_7 = cm.lambda_7; copy_common(cm, b); } X = new gm2calc::THDM(b, xsm, xcfg); } });
+      if (gauge) { gm2calc::thdm::Gauge_basis b; if (!bnull) { b.yukawa_type = x_named(ytype); for (int i = 0; i < 7; i++) b.lambda(i) = cg.lambda[i]; copy_common(cg, b); } X = new gm2calc::THDM(b, xsm, xcfg); }
+      else { gm2calc::thdm::Mass_basis b; if (!bnull) { b.yukawa_type = x_named(ytype); b.mh = cm.mh; b.mH = cm.mH; b.mA = cm.mA; b.mHp = cm.mHp; b.sin_beta_minus_alpha = cm.sin_beta_minus_alpha; b.lambda_6 = cm.lambda_6; b.lambda_7 = cm.lambda_7; copy_common(cm, b); } X = new gm2calc::THDM(b, xsm, xcfg); } });
    char b[256];
    if (xcode == -2) { if (code == gm2calc_NoError) { status = "MISMATCH"; std::snprintf(b, sizeof b, "yukawa_type %d outside 1..6 accepted with NoError", ytype); detail = b; } if (code != gm2calc_NoError && h != nullptr) { status = "MISMATCH"; detail = "error code without NULL handle"; } }
    else if ((int)code != xcode) { status = "MISMATCH"; std::snprintf(b, sizeof b, "constructor: C error code %d (%s), C++ exception class maps to %d", (int)code, gm2calc_error_str(code), xcode); detail = b; }
